@@ -30,10 +30,13 @@ func run(c *fw.Ctx) {
 	fsx.Containment(c, mon)
 	fsx.Histories(c, mon, c.Pick(64, 2000), c.Pick(80, 200))
 	hostileNames(c)
+	targetFormSlice(c)
 	permissionSlice(c)
 	faultSlice(c)
 	fsx.Interference(c, mon)
 	fsx.LinkSlice(c, mon)
+	rootStates(c)
+	rootHistories(c, c.Pick(96, 1200), c.Pick(40, 60))
 }
 
 // hostileNames drives OS failure modes the bounded universe cannot reach:
@@ -144,6 +147,14 @@ func permissionSlice(c *fw.Ctx) {
 	mk("locked", true, 0000, false)
 	mk("secret", false, 0000, false)
 	mk("rofile", false, 0444, false)
+	// a collection of the server's own with members it may not read: copying
+	// or listing it fails half-way, after the first members went through
+	mk("open/mixed", true, 0755, true)
+	mk("open/mixed/a-readable", false, 0644, true)
+	mk("open/mixed/m-unreadable", false, 0000, false)
+	mk("open/mixed/n-lockeddir/inner", false, 0644, false)
+	mk("open/mixed/n-lockeddir", true, 0000, false)
+	mk("open/mixed/z-readable", false, 0644, true)
 
 	// the unprivileged user must be able to execute the binary wherever the
 	// harness was built: run a world-readable copy from the sandbox
@@ -181,21 +192,27 @@ func permissionSlice(c *fw.Ctx) {
 		c.Note("permission_slice", "skipped: davserver did not report its address")
 		return
 	}
-	type rq struct{ m, p, dest string }
+	type rq struct{ m, p, dest, ow, depth string }
 	var reqs []rq
-	targets := []string{"/secret", "/rofile", "/locked", "/locked/inner", "/locked/new", "/ro", "/ro/file", "/ro/new", "/ro/sub", "/ro/sub/y", "/open/file", "/open/dirfull", "/"}
+	targets := []string{"/secret", "/rofile", "/locked", "/locked/inner", "/locked/new", "/ro", "/ro/file", "/ro/new", "/ro/sub", "/ro/sub/y", "/open/file", "/open/dirfull", "/open/mixed/m-unreadable", "/open/mixed/n-lockeddir", "/open/mixed", "/"}
 	for _, t := range targets {
 		for _, m := range []string{"OPTIONS", "GET", "HEAD", "PUT", "DELETE", "MKCOL", "PROPFIND"} {
 			if t == "/" && (m == "DELETE" || m == "PUT" || m == "MKCOL") {
 				continue
 			}
-			reqs = append(reqs, rq{m, t, ""})
+			reqs = append(reqs, rq{m, t, "", "", ""})
+			if m == "PROPFIND" {
+				reqs = append(reqs, rq{m, t, "", "", "1"}, rq{m, t, "", "", "infinity"})
+			}
 		}
 		for _, d := range []string{"/open/new", "/ro/new2", "/locked/new2", "/open/file", "/ro/file", "/secret"} {
 			if t == "/" || d == t {
 				continue
 			}
-			reqs = append(reqs, rq{"COPY", t, d}, rq{"MOVE", t, d})
+			reqs = append(reqs, rq{"COPY", t, d, "", ""}, rq{"MOVE", t, d, "", ""})
+			if (len(t)+len(d))%3 == 0 {
+				reqs = append(reqs, rq{"COPY", t, d, "F", ""}, rq{"COPY", t, d, "T", "0"}, rq{"MOVE", t, d, "F", ""})
+			}
 		}
 	}
 	needles := []string{root, base}
@@ -218,7 +235,13 @@ func permissionSlice(c *fw.Ctx) {
 		if r.dest != "" {
 			req.Header.Set("Destination", r.dest)
 		}
-		c.Journal(r)
+		if r.ow != "" {
+			req.Header.Set("Overwrite", r.ow)
+		}
+		if r.depth != "" {
+			req.Header.Set("Depth", r.depth)
+		}
+		c.Journal(map[string]string{"slice": "permission", "method": r.m, "path": r.p, "dest": r.dest, "overwrite": r.ow, "depth": r.depth})
 		resp, err := hc.Do(req)
 		c.JournalDone()
 		if err != nil {
@@ -246,7 +269,7 @@ func permissionSlice(c *fw.Ctx) {
 				}
 				c.Report(fmt.Sprintf("%s|permission-denied-slice|status=%d|%s", r.m, resp.StatusCode, op),
 					fmt.Sprintf("%s %s (dest %q) as unprivileged server: response discloses the host path: %.200q", r.m, r.p, r.dest, string(b)),
-					map[string]interface{}{"method": r.m, "path": r.p, "dest": r.dest, "status": resp.StatusCode, "body": string(b)})
+					map[string]interface{}{"method": r.m, "path": r.p, "dest": r.dest, "overwrite": r.ow, "depth": r.depth, "status": resp.StatusCode, "body": string(b)})
 				break
 			}
 		}
@@ -259,12 +282,16 @@ func init() {
 		ID:  "C17",
 		Run: run,
 		Replay: func(c *fw.Ctx, w json.RawMessage) {
+			if replayRootHistory(c, w) {
+				return
+			}
 			fsx.ReplayWitness(c, mon, w)
 		},
-		Rule: "every header value and body of every response of the C01 exploration (385 trees x all single requests + random histories) is scanned for the absolute path of the served directory (a long unique name), its symlink-resolved form and the sandbox path; plus a hostile-name slice (300-byte names, 1200-level paths, control characters: ENAMETOOLONG etc.) and a permission slice (davserver child running as uid 65534 over mode-000 / read-only entries: EACCES for open, readdir, create, unlink, mkdir, rename) and an OS-fault slice (davserver child under strace fault injection: 9 syscall groups x 8 (thorough 16) errno values such as EIO, ENOSPC, EMFILE, EXDEV, ELOOP x 25 requests) and a link slice (every method on, below, from and onto symbolic links placed in the served directory: to a directory, to a file, absolute, dangling, dangling below a missing directory, looping, to a Unix socket, into procfs, out of the root; ~900 requests, each on a fresh tree). " +
+		Rule: "every header value and body of every response of the C01 exploration (385 trees x all single requests + random histories) is scanned for the absolute path of the served directory (a long unique name), its symlink-resolved form and the sandbox path; plus a hostile-name slice (300-byte names, 1200-level paths, control characters: ENAMETOOLONG etc.; decoded request paths and Destination texts the file system refuses or cleans itself: NUL, not absolute, dot-dot chains, backslashes, non-UTF-8 bytes, 4 KiB paths - every method) and a permission slice (davserver child running as uid 65534 over mode-000 / read-only entries: EACCES for open, readdir, create, unlink, mkdir, rename) and an OS-fault slice (davserver child under strace fault injection: 9 syscall groups x 8 (thorough 16) errno values such as EIO, ENOSPC, EMFILE, EXDEV, ELOOP x 30 requests on the named paths of the tree; and, with strace attached to the running server and no path filter, 7 syscall groups x every / every second / every third invocation, which reaches the staging entries of PUT, COPY and MOVE) and a link slice (every method on, below, from and onto symbolic links placed in the served directory: to a directory, to a file, absolute, dangling, dangling below a missing directory, looping, to a Unix socket, into procfs, out of the root; ~900 requests, each on a fresh tree) and a root-state family (the served directory itself is the variable: removed by DELETE /, removed by the host together with or without its parent, replaced by a file, by a dangling, looping or directory link, emptied; every method on the root and below it and COPY/MOVE from and onto them in each state under seven spellings of the configured directory, each on a sandbox built from nothing; plus random histories that are never rebuilt between steps, in which requests aimed at the root and host events change the root's state while the history goes on). " +
 			"distinct_nontrivial counts distinct (method, abstract request/tree class, status) observations.",
 		Assumptions: []string{
 			"the root directory name is long and unique, so a substring match is a disclosure",
+			"root-state and target-form families: the bare names of the served directory and of its parent are needles too (keys marked directory-name-only): no request of these families carries them, and a root configured relative to the working directory can only be disclosed in that form",
 			"the permission slice needs root to drop privileges; when unavailable it is skipped and the evidence says so",
 		},
 		MinEvals:    func(t string) int64 { return 100000 },
